@@ -3,6 +3,7 @@ package main
 import (
 	"encoding/json"
 	"fmt"
+	"math/rand"
 	"strings"
 
 	"vharness/internal/abs"
@@ -15,6 +16,7 @@ func realtimeDriver(args []string) (*Summary, error) {
 	fl := newFlags("realtime")
 	zones := fl.fs.String("zones", "nil", "comma separated zone tokens; the identity order is parsed in each")
 	maxPerm := fl.fs.Int("maxperm", 4, "messages with at most this many entities are parsed in every entity order")
+	genN := fl.fs.Int("genents", 25, "entities per generated message")
 	fl.fs.Parse(args)
 	w, err := abs.NewWriter(*fl.out)
 	if err != nil {
@@ -28,13 +30,7 @@ func realtimeDriver(args []string) (*Summary, error) {
 	s := &Summary{Counters: map[string]int{}}
 	n := 0
 	distinct := map[string]bool{}
-	err = abs.ReadLines(*fl.in, func(line []byte) error {
-		var c rt.Case
-		if err := json.Unmarshal(line, &c); err != nil {
-			return fmt.Errorf("bad case: %v", err)
-		}
-		n++
-		id := fmt.Sprintf("tlc-%d", n)
+	handle := func(id string, c rt.Case) error {
 		inputs.Write(map[string]any{"case": id, "input": c})
 		crashes, err := rt.RunCase(id, c, strings.Split(*zones, ","), *maxPerm, w)
 		if err != nil {
@@ -54,13 +50,32 @@ func realtimeDriver(args []string) (*Summary, error) {
 			distinct[string(c.Msg)] = true
 			s.Counters["distinct_messages"]++
 		}
-		if len(s.Samples) < 3 && len(m.Ents) >= 2 {
+		if len(s.Samples) < 3 && len(m.Ents) >= 2 && len(m.Ents) <= 6 {
 			s.Samples = append(s.Samples, map[string]any{"case": id, "input": c})
 		}
 		return nil
-	})
-	if err != nil {
-		return nil, err
+	}
+	if *fl.in != "" {
+		err = abs.ReadLines(*fl.in, func(line []byte) error {
+			var c rt.Case
+			if err := json.Unmarshal(line, &c); err != nil {
+				return fmt.Errorf("bad case: %v", err)
+			}
+			n++
+			return handle(fmt.Sprintf("tlc-%d", n), c)
+		})
+		if err != nil {
+			return nil, err
+		}
+	}
+	r := rand.New(rand.NewSource(*fl.seed))
+	for i := 0; i < *fl.gen; i++ {
+		n++
+		// large messages: many mentions of few trips and vehicles; every third one with conflicting duplicates
+		if err := handle(fmt.Sprintf("gen-%d-%d", *fl.seed, i), rt.GenCase(r, *genN, 2+*genN/5, i%3 == 2)); err != nil {
+			return nil, err
+		}
+		s.Counters["generated_large_messages"]++
 	}
 	s.Records = w.N
 	return s, w.Close()
